@@ -80,6 +80,20 @@ impl Sys for MapOr {
             _ => "?".into(),
         }
     }
+    fn rust_type() -> &'static str {
+        "Map<u8, Orswot<u8, u8>, u8>"
+    }
+    fn rust_gen(c: Cmd, a: u8, _idx: usize) -> String {
+        match c.k {
+            ADD => format!("s.update({k}u8, s.get(&{k}).derive_add_ctx({a}), |set, c| set.add({m}u8, c))", k = c.x, a = a, m = c.y),
+            RM_MEMBER => format!("s.update({k}u8, s.get(&{k}).derive_add_ctx({a}), |set, _c| set.rm({m}u8, set.contains(&{m}).derive_rm_ctx()))", k = c.x, a = a, m = c.y),
+            RM_KEY => format!("s.rm({k}u8, s.get(&{k}).derive_rm_ctx())", k = c.x),
+            _ => format!("s.rm({k}u8, s.read_ctx().derive_rm_ctx())", k = c.x),
+        }
+    }
+    fn rust_reads() -> &'static str {
+        "let v: Vec<(u8, Vec<u8>, VClock<u8>)> = s.iter().map(|c| { let mut x: Vec<u8> = c.val.1.read().val.into_iter().collect(); x.sort(); (*c.val.0, x, c.rm_clock.clone()) }).collect(); format!(\"key -> members, key witness {:?} clock {:?}\", v, s.read_ctx().add_clock)"
+    }
     fn classes(c: Cmd) -> (Class, Class) {
         match c.k {
             ADD | RM_MEMBER => (Class::Key, Class::Member),
